@@ -527,10 +527,17 @@ func replyFaultScenario(ackErrors bool, c int) *explore.Scenario {
 
 // ---- family C: end to end on a shared reply topic ------------------------------------------------------------
 
-func e2eScenario(R int, replies bool, c int) *explore.Scenario {
+func e2eScenario(R int, replies bool, c int) *explore.Scenario { return e2eScenarioX(R, replies, c, false) }
+
+// blockingBus: the commands travel over a Pub/Sub whose Publish returns only once the command was handled and acked (a
+// blocking GoChannel here): the reply is then on its way before Send returns, so it must already be listened for
+func e2eScenarioX(R int, replies bool, c int, blockingBus bool) *explore.Scenario {
 	name := fmt.Sprintf("e2e/requesters%d", R)
 	if replies {
 		name += "/SendWithReplies"
+	}
+	if blockingBus {
+		name += "/blocking-command-bus"
 	}
 	return &explore.Scenario{Name: name, C: c, DataOnly: c < 0, Opts: vs.Options{MaxSteps: 100000}, Body: func() {
 		g := gochannel.NewGoChannel(gochannel.Config{}, nil)
@@ -549,7 +556,11 @@ func e2eScenario(R int, replies bool, c int) *explore.Scenario {
 			return
 		}
 		r, _ := message.NewRouter(message.RouterConfig{}, nil)
-		bus, err := cqrs.NewCommandBusWithConfig(g, cqrs.CommandBusConfig{
+		gc := g // the Pub/Sub of the commands
+		if blockingBus {
+			gc = gochannel.NewGoChannel(gochannel.Config{BlockPublishUntilSubscriberAck: true}, nil)
+		}
+		bus, err := cqrs.NewCommandBusWithConfig(gc, cqrs.CommandBusConfig{
 			GeneratePublishTopic: func(cqrs.CommandBusGeneratePublishTopicParams) (string, error) { return "commands", nil },
 			Marshaler:            jm,
 		})
@@ -559,7 +570,7 @@ func e2eScenario(R int, replies bool, c int) *explore.Scenario {
 		}
 		proc, err := cqrs.NewCommandProcessorWithConfig(r, cqrs.CommandProcessorConfig{
 			GenerateSubscribeTopic: func(cqrs.CommandProcessorGenerateSubscribeTopicParams) (string, error) { return "commands", nil },
-			SubscriberConstructor:  func(cqrs.CommandProcessorSubscriberConstructorParams) (message.Subscriber, error) { return g, nil },
+			SubscriberConstructor:  func(cqrs.CommandProcessorSubscriberConstructorParams) (message.Subscriber, error) { return gc, nil },
 			Marshaler:              jm,
 		})
 		if err != nil {
@@ -800,6 +811,8 @@ func init() {
 		})
 	}
 	reg.AddW("C18", e2eScenario(1, false, 0).Name, reg.Quick, 10, func(t reg.Tier) *explore.Scenario { return e2eScenario(1, false, 0) })
+	reg.AddW("C18", e2eScenarioX(1, true, 0, true).Name, reg.Quick, 10, func(t reg.Tier) *explore.Scenario { return e2eScenarioX(1, true, 0, true) })
+	reg.AddW("C18", e2eScenarioX(2, false, -1, true).Name, reg.Quick, 5, func(t reg.Tier) *explore.Scenario { return e2eScenarioX(2, false, -1, true) })
 	reg.AddW("C18", e2eScenario(2, false, -1).Name, reg.Quick, 10, func(t reg.Tier) *explore.Scenario { return e2eScenario(2, false, -1) })
 	reg.AddW("C18", e2eScenario(2, true, -1).Name, reg.Quick, 10, func(t reg.Tier) *explore.Scenario { return e2eScenario(2, true, -1) })
 	reg.AddW("C18", e2eScenario(3, false, -1).Name, reg.Thorough, 20, func(t reg.Tier) *explore.Scenario { return e2eScenario(3, false, -1) })
